@@ -1573,3 +1573,64 @@ M.contract(P_IMPL + '.apply', params=dict(self=IMPL), ghosts=dict(orig=Str),
 def _assembled_parser_on_small_documents(ctx):
     from contracts import C07_bounded
     C07_bounded.run(ctx)
+
+
+# ============================================================================== the act phase parser
+
+from exactly_lib.processing.parse import act_phase_source_parser as aps
+
+P_ACT = 'exactly_lib.processing.parse.act_phase_source_parser'
+BS = '\\'
+
+
+def un_escaped_at_beginning(s):
+    """\\[ -> [ and \\\\ -> \\ at the very beginning, nothing else"""
+    if s[:2] == BS + '[':
+        return '[' + s[2:]
+    if s[:2] == BS + BS:
+        return BS + s[2:]
+    return s
+
+
+M.contract(P_ACT + ':_un_escape_at_beginning_of_line', params=dict(s=Str), returns=Str, inline=True,
+           ensures={'as-specified': lambda s, result: result == un_escaped_at_beginning(s)}, raises_only=())
+
+M.contract(P_ACT + ':_split_space', params=dict(s=Str),
+           returns=FixedList(Str, Str, as_tuple=True),
+           ensures={
+               'a-split': lambda s, result: result[0] + result[1] == s,
+               'leading-white-space-all-of-it': lambda result:
+               all_space(result[0]) and (result[1] == '' or not result[1][:1].isspace()),
+               'remember-the-split (ghost)': (lambda result, ghost: _remember(ghost, 'space-split', result), 'effect'),
+           }, raises_only=())
+M.loop(P_ACT + ':_split_space', 0,
+       invariant=lambda s, non_space_char_idx:
+       0 <= non_space_char_idx and non_space_char_idx <= len(s) and all_space(s[:non_space_char_idx]),
+       modifies=dict(non_space_char_idx=Int),
+       decreases=lambda s, non_space_char_idx: len(s) - non_space_char_idx)
+
+
+def _remember(ghost, key, value):
+    ghost[key] = value
+    return True
+
+
+def _un_escape_as_specified(s, result, ghost):
+    """un-escaping happens after the leading white space only (ghost: the split _split_space returned)"""
+    if s == '':
+        return result == ''
+    if not s[:1].isspace():
+        return result == un_escaped_at_beginning(s)
+    space, rest = ghost['space-split']
+    return space + rest == s and all_space(space) and (rest == '' or not rest[:1].isspace()) \
+        and result == space + un_escaped_at_beginning(rest)
+
+
+M.contract(P_ACT + ':_un_escape', params=dict(s=Str), returns=Str, pure_result=True,
+           ensures={
+               'leading-space-kept-then-un-escaped-at-the-beginning': (lambda s, result, ghost:
+                                                                       _un_escape_as_specified(s, result, ghost),
+                                                                       NEVER_ASSUMED),
+               'no-newline-appears': lambda s, result: (NL in s) or (NL not in result),
+           }, raises_only=())
+
